@@ -791,6 +791,11 @@ func (s *State) applyFunction(name string, fn object.Object, args []object.Objec
 		log.Debugf("Cache miss for %s %v, not caching error result", function.CacheKey, args)
 		return res
 	}
+	// Nor a function (a closure over this very call's environment: x = mk(5) twice must give 2 independent counters).
+	if object.HoldsFunction(res) {
+		log.Debugf("Cache miss for %s %v, not caching function result", function.CacheKey, args)
+		return res
+	}
 	s.cache.Set(function.CacheKey, args, res, output)
 	log.Debugf("Cache miss for %s %v", function.CacheKey, args)
 	return res
